@@ -7,7 +7,7 @@
             => panic | ok <npkts> (<payload> <head> <res>)*
   c15.h264  <avc> <npre> <payload>* <nframe> <payload>*
             => panic | ok <n> <res>* <n> <res>*
-  c08.h264  <disable> <calls> => <n> PayObs*
+  c08.h264  <n> <disable>* <calls> => <n> PayObs*      (DisableStapA per call)
   c09.h264  <avc> <n> <obytes>* => <n> (<res> <isAVC> <head> <tail0> <tail1> <auxPanic> <freshSame> <twinSame>)*
 -/
 import Driver.Common
@@ -90,8 +90,8 @@ def c15 : Handler :=
   mkHandler rdC15Input rdC15Obs c15Model C15H264.ok (fun i => i.wf)
 
 def c08 : Handler :=
-  mkHandler (do let d ← Rd.bool; let cs ← rdCalls; pure (d, cs)) rdPayObsList
-    (fun (d, cs) => c08Model d cs)
+  mkHandler (do let fs ← Rd.list Rd.bool; let cs ← rdCalls; pure (fs, cs)) rdPayObsList
+    (fun (fs, cs) => c08Model fs cs)
     (fun (_, cs) os => C08.histOk false cs os)
 
 def c09 : Handler :=
